@@ -66,6 +66,21 @@ func schemaKey(m *mSchema) string {
 // namespace separator is dropped and case is ignored (ab.cd / abCd). Used only to prioritise stimuli.
 func sepCaseTwins(m *mSchema) bool { return len(twinNames(m)) > 0 }
 
+// mutOnce: keeps, before the cap is applied, n stimuli per (mutation kind, option row, shape of the last
+// combinator = the mutated one); the pool is visited in TLC's emission order, which is deterministic
+func mutOnce(n int) func(m *mSchema) bool {
+	seen := map[string]int{}
+	return func(m *mSchema) bool {
+		if m.Mut == "none" || len(m.Schema) == 0 {
+			return false
+		}
+		last := m.Schema[len(m.Schema)-1]
+		k := fmt.Sprintf("%s|%s|%s|%d|%d", m.Mut, m.Opt, last.Kind, len(m.Schema), len(last.Targs))
+		seen[k]++
+		return seen[k] <= n
+	}
+}
+
 // deconfChain: a field whose name is an earlier field's name plus "0" (any case of the first letter):
 // the name the deconflicter hands to the earlier one is then requested again. Prioritises stimuli only.
 func deconfChain(m *mSchema) bool {
@@ -218,6 +233,10 @@ func runC14(c *core.Ctx) error {
 		{"A", c14CfgF(1, 2, `{"a"}`, "MCNameMenuOne", "MCFieldNamesTiny", "MCKindsCore", "{0}", `{}`, "MCMutationsNone", `{"plain"}`, `{"get"}`), 60, 1000, nil},
 		{"B", c14CfgF(2, 1, `{"a", "b"}`, "MCNameMenuOne", "MCFieldNamesTiny", "MCKindsTmpl", "{0}", `{}`, "MCMutationsNone", `{"plain"}`, `{}`), 40, 800, nil},
 		{"D", c14CfgF(1, 3, `{"a"}`, "MCNameMenuOne", "MCFieldNamesDeconf", "MCKindsInt", "{0}", `{}`, "MCMutationsNone", `{"plain"}`, `{}`), 40, 600, deconfChain},
+		// M: every single ill-forming mutation of small schemas without templates (a template that is never
+		// instantiated is not resolved, so its errors stay unseen), plain and function combinators
+		{"M", c14CfgF(2, 1, `{"a"}`, "MCNameMenuOne", "MCFieldNamesTiny", "MCKindsInt", "{0}", `{}`, "MCMutations", `{"plain", "rpc"}`, `{"get"}`), 30, 400,
+			mutOnce(2)},
 		{"S", with(c14CfgF(2, 0, `{"", "ab", "a", "aB"}`, "MCNameMenuSep", "MCFieldNamesTiny", "MCKindsNone", "{0}", `{}`, "MCMutationsNone", `{"plain"}`, `{"abCd"}`),
 			"UNIONMENU", "MCUnionMenuNone"), 10, 1500, sepCaseTwins},
 		{"T", with(c14CfgF(2, 1, `{"x"}`, "MCNameMenuOne", "MCFieldNamesOne", "MCKindsInt", "{0}", `{}`, "MCMutationsNone", `{"tl2file", "tl2filewl"}`, `{"get"}`),
